@@ -365,8 +365,14 @@ class Dir:
         for rel, content in files.items():
             p = os.path.join(self.path, rel)
             os.makedirs(os.path.dirname(p), exist_ok=True)
+            text = content.replace("@DEST@", "%s/c/dest" % pkgrun.MOD).replace("@MOD@", pkgrun.MOD)
+            # an edit touches the files it changes and no others (modification times are part of what a run can look at)
+            if os.path.exists(p):
+                with open(p) as f:
+                    if f.read() == text:
+                        continue
             with open(p, "w") as f:
-                f.write(content.replace("@DEST@", "%s/c/dest" % pkgrun.MOD).replace("@MOD@", pkgrun.MOD))
+                f.write(text)
 
     def shoot(self, args, cwd=None, env=None, umask=None, via_go_generate=False):
         cmd = [self.ctx.shoot()] + args
